@@ -33,6 +33,9 @@ rule("C07.k", "an index of one space (variable / mapping row / time step / restr
 rule("C08.f", "a sum of step lengths over the steps of selected mapping rows first reduces the rows to distinct steps (rows are not "
               "steps: two variables per step would count every step twice)", floor=1, props=["C08", "C02"])
 
+rule("C04.j", "the DCF table of the report holds what the assets' dcf() returned, nothing else: every store into it (also through an alias such as "
+              "`for table in (dcfs, disp)`) takes its value from a dcf() call - no rescaling afterwards (per sample, per step ...), so that the table "
+              "adds up to the value", floor=1)
 rule("C04.i", "the cash flows of an asset are read off the problem: every implementation of dcf() computes -c[i] x[i] from the cost vector of the "
               "problem it is given - not a second formula from the asset's own parameters and the grid (it would have to repeat the discounting "
               "with the asset's own rate, the 1 / (samples + 1) of an SLP ...: the value is -c'x, the cash flows then no longer add up to it)", floor=1)
@@ -390,7 +393,7 @@ def _rule_for(fn) -> str:
     return "C07.k"
 
 
-@analysis("spaces", ["C15.a", "C15.f", "C13.b", "C04.a", "C07.k", "C08.f", "C08.g", "C08.k", "C08.m", "C15.n", "C08.n", "C04.i", "C05.t"])
+@analysis("spaces", ["C15.a", "C15.f", "C13.b", "C04.a", "C07.k", "C08.f", "C08.g", "C08.k", "C08.m", "C15.n", "C08.n", "C04.i", "C05.t", "C04.j"])
 def run(ctx):
     p = ctx.p
     counts = {}
@@ -488,6 +491,42 @@ def run(ctx):
                ok_detail="-c[i] * x[i]" if reads_c else "delegates to another dcf")
     if n_i4 == 0:
         ctx.ob("C04.i", "package", "dcf implementations", None, "no dcf method found")
+    # ---------------------------------------------------------------- C04.j the DCF table of the report is what the assets' dcf() returned
+    xo = p.fn_opt("io.extract_output")
+    if xo is None:
+        ctx.ob("C04.j", "io", "extract_output", None, "io.extract_output not found")
+    else:
+        table = None
+        for st in au.walk_stmts(xo.body):
+            if isinstance(st, ast.Assign) and isinstance(st.targets[0], ast.Subscript) and au.const_str(st.targets[0].slice) == "DCF" \
+                    and isinstance(st.value, ast.Name):
+                table = st.value.id
+        if table is None:
+            ctx.ob("C04.j", xo, "DCF table", None, "output['DCF'] = <name> not found")
+        else:
+            aliases = {table}
+            for st in au.walk_stmts(xo.body):
+                if isinstance(st, ast.For) and isinstance(st.iter, (ast.Tuple, ast.List)) and any(isinstance(e, ast.Name) and e.id in aliases for e in st.iter.elts):
+                    aliases |= set(au.target_names(st.target))
+            n_w = 0
+            for st in au.walk_stmts(xo.body):
+                tg_ = None
+                if isinstance(st, ast.Assign) and isinstance(st.targets[0], ast.Subscript) and au.base_name(st.targets[0]) in aliases:
+                    tg_ = st.targets[0]
+                elif isinstance(st, ast.AugAssign) and au.base_name(st.target) in aliases:
+                    tg_ = st.target
+                if tg_ is None:
+                    continue
+                n_w += 1
+                v = st.value
+                from_dcf = any(isinstance(x, ast.Call) and au.method_name(x) == "dcf" for x in ast.walk(v)) and not isinstance(st, ast.AugAssign)
+                ctx.ob("C04.j", xo, au.short(st, 80), from_dcf,
+                       "the DCF table is (re)written with %s, which is not the result of an asset's dcf(): the cash flows of an SLP are already "
+                       "weighted with 1 / (samples + 1) in the cost vector - dividing the table again (like the summed dispatch) halves the future "
+                       "part (value 8886.03, DCF table sums to 4575.27)" % au.short(v, 60), node=st)
+            if n_w == 0:
+                ctx.ob("C04.j", xo, "DCF table", None, "no store into the DCF table found")
+
     # ================================================================= C05.t the storage report selects by ownership only
     flt = p.fn_opt("Storage.fill_level")
     if flt is None:
